@@ -64,7 +64,7 @@ func specUploader(u *uploader) bool {
 
 //@ contract Run
 //@   recovers-first
-//@   modifies heap, $fsops, $lockHeld, $markerAbsent, $reportExists, $contributed, $minsize, $nprog, $spanName, $spanOK, $spanExpiry, $collected, $dateOK, $age, $tooOld, $lockLeft
+//@   modifies heap, $fsops, $lockHeld, $markerAbsent, $reportExists, $contributed, $minsize, $nprog, $spanName, $spanOK, $spanExpiry, $collected, $dateOK, $weekAge, $tooOld, $lockLeft
 
 //@ contract newUploader
 //@   ensures result1 == nil ==> uploaderOK(result0) && fresh(result0)
@@ -90,7 +90,7 @@ func specUploader(u *uploader) bool {
 //@   ensures uploaderOK(u)
 //@   ensures $mode == "off" ==> $fsops == old($fsops)
 //@   loop 1: invariant uploaderOK(u) && (len(ready) > 0 ==> $mode == "on") && ($mode == "off" ==> $fsops == old($fsops))
-//@   modifies u.cache.m, entries(u.cache.m), maps(string, int64), $fsops, $reportExists, $lockHeld, $markerAbsent, $contributed, $minsize, $nprog, $spanName, $spanOK, $spanExpiry, $collected, $dateOK, $age, $tooOld, $lockLeft
+//@   modifies u.cache.m, entries(u.cache.m), maps(string, int64), $fsops, $reportExists, $lockHeld, $markerAbsent, $contributed, $minsize, $nprog, $spanName, $spanOK, $spanExpiry, $collected, $dateOK, $weekAge, $tooOld, $lockLeft
 
 // findWork only reads: nothing is created, changed or removed (it may create
 // the upload directory itself). A report name is put on the ready list only in
@@ -144,7 +144,7 @@ func specUploader(u *uploader) bool {
 //@   at loop 1 end: assert err == nil && end.Before(u.startTime) ==> $collected == f
 //@   at call createReport#1: assert arg1 == earliest[expiry]
 //@   loop 2: invariant uploaderOK(u) && todo != nil && (len(todo.readyfiles) > 0 ==> $mode == "on") && $mode != "off"
-//@   modifies todo.readyfiles, u.cache.m, entries(u.cache.m), maps(string, int64), $fsops, $reportExists, $contributed, $minsize, $nprog, $dateOK, $age, $tooOld, $collected
+//@   modifies todo.readyfiles, u.cache.m, entries(u.cache.m), maps(string, int64), $fsops, $reportExists, $contributed, $minsize, $nprog, $dateOK, $weekAge, $tooOld, $collected
 
 //@ contract latestReport
 //@   loop 1: invariant latest == "" || strings.HasSuffix(latest, ".json")
@@ -170,17 +170,17 @@ func specUploader(u *uploader) bool {
 // than distantPast (21 days) after that day.
 //@ ghost dateOK bool
 //@ ghost tooOld bool
-//@ ghost age int
+//@ ghost weekAge int
 //@ contract (*uploader).tooOld
 //@   requires uploaderOK(u)
 //@   ensures $fsops == old($fsops)
 //@   at call Parse#1: assert arg0 == "2006-01-02" && arg1 == date
 //@   at call Parse#1: after ghost $dateOK = result1 == nil
 //@   at call Sub#1: assert same(arg0, uploadStartTime) && same(arg1, t)
-//@   at call Sub#1: after ghost $age = int(result)
+//@   at call Sub#1: after ghost $weekAge = int(result)
 //@   ensures !$dateOK ==> !result
-//@   ensures $dateOK ==> (result <==> $age > int(distantPast))
-//@   modifies $dateOK, $age
+//@   ensures $dateOK ==> (result <==> $weekAge > int(distantPast))
+//@   modifies $dateOK, $weekAge
 
 //@ contract (*uploader).counterDateSpan
 //@   requires uploaderOK(u)
@@ -283,8 +283,8 @@ func specUploader(u *uploader) bool {
 //@   loop 4: invariant forall k string :: !in(k, x.Stacks)
 //@   loop 5: invariant forall k string :: in(k, x.Counters) ==> in(k, p.Counters) && cfg.HasCounter(p.Program, k) && report.X <= cfg.Rate(p.Program, k) && x.Counters[k] == p.Counters[k]
 //@   at loop 5 entry: assert forall k string :: in(k, p.Counters) && cfg.HasCounter(p.Program, k) && report.X <= cfg.Rate(p.Program, k) ==> in(k, x.Counters)
-//@   loop 5: invariant forall k string :: in(k, x.Stacks) ==> in(k, p.Stacks) && cfg.HasStack(p.Program, config.SpecStackName(k)) && report.X <= cfg.Rate(p.Program, config.SpecStackName(k)) && x.Stacks[k] == p.Stacks[k]
-//@   loop 5: invariant forall k string :: visited(p.Stacks, k) && cfg.HasStack(p.Program, config.SpecStackName(k)) && report.X <= cfg.Rate(p.Program, config.SpecStackName(k)) ==> in(k, x.Stacks)
+//@   loop 5: invariant forall k string :: in(k, x.Stacks) ==> in(k, p.Stacks) && cfg.HasStack(p.Program, config.SpecStackName(k)) && report.X <= cfg.StackRate(p.Program, config.SpecStackName(k)) && x.Stacks[k] == p.Stacks[k]
+//@   loop 5: invariant forall k string :: visited(p.Stacks, k) && cfg.HasStack(p.Program, config.SpecStackName(k)) && report.X <= cfg.StackRate(p.Program, config.SpecStackName(k)) ==> in(k, x.Stacks)
 // ... so that at the end of each program's iteration (loop 3) the entry appended
 // to the upload report is exactly the approved part of the local entry, for an
 // approved program build, with the five metadata fields copied.
@@ -293,7 +293,7 @@ func specUploader(u *uploader) bool {
 //@   at loop 3 end: assert cfg.HasGoVersion(x.GoVersion) && cfg.HasProgram(x.Program) && cfg.HasVersion(x.Program, x.Version) && cfg.HasGOOS(x.GOOS) && cfg.HasGOARCH(x.GOARCH)
 //@   at loop 3 end: assert forall k string :: in(k, x.Counters) ==> in(k, p.Counters) && cfg.HasCounter(p.Program, k) && report.X <= cfg.Rate(p.Program, k)
 //@   at loop 3 end: assert forall k string :: in(k, x.Counters) ==> x.Counters[k] == p.Counters[k]
-//@   at loop 3 end: assert forall k string :: in(k, x.Stacks) <==> in(k, p.Stacks) && cfg.HasStack(p.Program, config.SpecStackName(k)) && report.X <= cfg.Rate(p.Program, config.SpecStackName(k))
+//@   at loop 3 end: assert forall k string :: in(k, x.Stacks) <==> in(k, p.Stacks) && cfg.HasStack(p.Program, config.SpecStackName(k)) && report.X <= cfg.StackRate(p.Program, config.SpecStackName(k))
 //@   at loop 3 end: assert forall k string :: in(k, x.Stacks) ==> x.Stacks[k] == p.Stacks[k]
 //@   at loop 3 end: assert len(upload.Programs) >= 1 && upload.Programs[len(upload.Programs)-1] == x
 //@   loop 3: invariant forall j int :: 0 <= j && j < len(upload.Programs) ==> upload.Programs[j] != nil && cfg.HasGoVersion(upload.Programs[j].GoVersion) && cfg.HasProgram(upload.Programs[j].Program) && cfg.HasVersion(upload.Programs[j].Program, upload.Programs[j].Version)
@@ -309,7 +309,7 @@ func specUploader(u *uploader) bool {
 //@   at loop 3 end: assert len(upload.Programs) == $nprog + ite(approvedBuild(cfg, p), 1, 0)
 //@   at call MarshalIndent#2: assert same(upload.X, report.X) && upload.Week == report.Week
 //@   at call MarshalIndent#2: assert approvedReport(cfg, upload)
-//@   modifies u.cache.m, entries(u.cache.m), maps(string, int64), $fsops, $reportExists, $contributed, $minsize, $nprog, $dateOK, $age, $tooOld
+//@   modifies u.cache.m, entries(u.cache.m), maps(string, int64), $fsops, $reportExists, $contributed, $minsize, $nprog, $dateOK, $weekAge, $tooOld
 
 // uploadReport: a report dated in the future is not sent.
 //@ contract (*uploader).uploadReport
